@@ -6,6 +6,7 @@ package wire
 
 import (
 	"errors"
+	"io"
 	"net"
 	"os"
 	"sync"
@@ -39,6 +40,8 @@ type Conn struct {
 	wdl    time.Time
 	after  bool
 
+	peer    *Conn // buffered pipe mode: writes are fed to the peer
+	NoLog   bool  // do not keep Written / write events (long streams)
 	Events      []Event
 	Written     []byte
 	WriteFailAt int // -1 = never; otherwise total offset at which writes fail
@@ -154,6 +157,14 @@ func (c *Conn) Read(p []byte) (int, error) {
 }
 
 func (c *Conn) Write(p []byte) (int, error) {
+	n, err := c.write(p)
+	if c.peer != nil && n > 0 {
+		c.peer.Feed(p[:n]) // outside c.mu: both ends may write at once
+	}
+	return n, err
+}
+
+func (c *Conn) write(p []byte) (int, error) {
 	c.mu.Lock()
 	defer c.mu.Unlock()
 	if c.closed {
@@ -174,8 +185,10 @@ func (c *Conn) Write(p []byte) (int, error) {
 			err = ErrInjected
 		}
 	}
-	c.Written = append(c.Written, p[:n]...)
-	c.Events = append(c.Events, Event{Kind: "write", Data: append([]byte{}, p[:n]...), N: n, T: time.Now(), After: c.after})
+	if !c.NoLog {
+		c.Written = append(c.Written, p[:n]...)
+		c.Events = append(c.Events, Event{Kind: "write", Data: append([]byte{}, p[:n]...), N: n, T: time.Now(), After: c.after})
+	}
 	return n, err
 }
 
@@ -188,7 +201,20 @@ func (c *Conn) Close() error {
 	}
 	c.closed = true
 	c.notify()
+	if c.peer != nil {
+		go c.peer.Finish(io.EOF)
+	}
 	return nil
+}
+
+// Pipe returns the two ends of an in-memory duplex connection with unbounded
+// buffering: a Write never blocks (unlike net.Pipe), Read blocks until data,
+// EOF from the peer's Close, or a deadline.
+func Pipe() (*Conn, *Conn) {
+	a, b := New(nil, nil), New(nil, nil)
+	a.peer, b.peer = b, a
+	a.NoLog, b.NoLog = true, true
+	return a, b
 }
 
 func (c *Conn) LocalAddr() net.Addr  { return addr{} }
